@@ -52,7 +52,7 @@ def parse_dot(dot):
         if m:
             edges.append((m.group(1), m.group(2), m.group(3), int(m.group(4))))
             continue
-        m = re.match(r'^(-?\d+) \[label="(.*?)"[,\]]', line)
+        m = re.match(r'^(-?\d+) \[label="((?:[^"\\]|\\.)*)"', line)
         if m:
             lab = m.group(2).replace('\\"', '"').replace("\\\\", "\\")
             st = {}
@@ -226,7 +226,7 @@ def projection_check(n, consts, nodes):
         return st
     counts = set()
     for line in r["dot"].splitlines():
-        m = re.match(r'^(-?\d+) \[label="(.*?)"[,\]]', line)
+        m = re.match(r'^(-?\d+) \[label="((?:[^"\\]|\\.)*)"', line)
         if m:
             lab = m.group(2).replace('\\"', '"')
             cnt = tuple(sorted((k, int(v)) for k, v in re.findall(r'(\w+) \|-> (\d+)', lab) if int(v) > 0))
